@@ -105,8 +105,13 @@ pub fn new(parameters: &RawParameters, ctx: &dyn Context) -> Result<Op, Error> {
     let own_parameters = parameters.next("pipeline");
     let params = ParsedParameters::new(&own_parameters, &GAMUT)?;
     let fwd = InnerOp(pipeline_fwd);
-    let inv = InnerOp(pipeline_inv);
-    let descriptor = OpDescriptor::new(definition, fwd, Some(inv));
+    // A pipeline is invertible only if all the steps it executes in the
+    // inverse direction are
+    let invertible = steps
+        .iter()
+        .all(|step| step.descriptor.invertible || step.params.boolean("omit_inv"));
+    let inv = invertible.then_some(InnerOp(pipeline_inv));
+    let descriptor = OpDescriptor::new(definition, fwd, inv);
     let id = OpHandle::new();
     Ok(Op {
         descriptor,
